@@ -55,7 +55,28 @@ def q_st(n_svc: int):
 
 
 @st.composite
+def two_answers_scenario(draw) -> Dict[str, Any]:
+    """Directed shape: one QU question with two answers (two services of one type) whose records were last multicast at different
+    times - a peer repeated one of them 20 s after the announcements - asked when one is just past a quarter of its TTL and the
+    other is not: the rule is per record."""
+    socks = draw(st.sampled_from(['v4', 'v4', 'v4x2', 'v4-split']))
+    small = draw(st.booleans())
+    services = [{'type': TYPES[0], 'name': f'svc{i}.{TYPES[0]}', 'port': 80 + i, 'server': 'host-a.local.', 'addrs': ['10.0.0.1'], 'props': '',
+                 'host_ttl': 120, 'other_ttl': 2000 if small else 4500} for i in range(2)]
+    seen_again = draw(st.integers(0, 1))
+    events: List[Dict[str, Any]] = [{'gap': 20000, 'kind': 'sighting', 'svc': seen_again, 'which': ['ptr']}]
+    main = {'kind': 'query', 'qs': [['type', 0, 0, 12, True]] + draw(st.lists(q_st(2), max_size=1)), 'ka': [], 'probe': False,
+            'client': draw(st.integers(0, 1)), 'family': 'v4', 'port': 5353, 'sock': draw(st.integers(0, 2)), 'id': 0, 'main': True,
+            'quarter': [1 - seen_again, 'ptr'], 'delta': draw(st.sampled_from([1, 2, 1000, 5000]))}
+    events.append(main)
+    return {'jitter': {'seed': draw(st.integers(0, 10**6))}, 'socks': socks, 'services': services,
+            'settle_ms': draw(st.sampled_from([1100, 2000, 5000])), 'events': events, 'tail_ms': 1600}
+
+
+@st.composite
 def scenario(draw) -> Dict[str, Any]:
+    if draw(st.integers(0, 9)) == 0:
+        return draw(two_answers_scenario())
     socks = draw(st.sampled_from(['v4', 'v4', 'v6', 'dual', 'v4x2', 'v4-split']))
     services = draw(services_st())
     fam_choices = {'v4': ['v4'], 'v4x2': ['v4'], 'v4-split': ['v4'], 'v6': ['v6'], 'dual': ['v4', 'v6']}[socks]
